@@ -118,7 +118,8 @@ public:
         T zero = T(0);
         T sqrtt = T(sqrt(p)) + 1;
 #ifdef PARMCB_INVARIANTS_CHECK
-         if ( sqrtt * sqrtt < p )
+         // sqrtt * sqrtt < p, without forming the product (it may exceed a bounded T)
+         if ( sqrtt <= (p - 1) / sqrtt )
              throw new std::runtime_error("error calculating square");
 #endif
         while (t <= sqrtt) {
